@@ -87,7 +87,8 @@ abbrev WTable := List ((WSt × String) × Except Err (Bytes × WSt))
     (token of the node, or the table row found for a literal name, current page first). -/
 def curTagAfter (lang : Option Lang) (w : WSt) : Item → Option TagRow
   | .node _ _ => none
-  | .start n _ =>
+  | .start _ false => none      -- an element without content is complete
+  | .start n true =>
     (match n with
      | .elt (.token r) _ _ => some r
      | .elt (.literal s) _ _ =>
